@@ -18,6 +18,7 @@ fn main() {
         Some("big-child") => big::cmd_child(&args[2..]),
         Some("run") => plan::cmd_run(&args[2..]),
         Some("trace") => plan::cmd_trace(&args[2..]),
+        Some("plan") => plan::cmd_plan(),
         _ => {
             eprintln!("usage: ppgmc check <ID> --tier quick|thorough | replay <file> | run <family> ...");
             2
